@@ -536,6 +536,17 @@ class Hessdiag(Derivative):
         options.pop('n', None)
         super(Hessdiag, self).__init__(f, step=step, method=method, n=2, order=order, **options)
 
+    def _get_functions(self, args, kwds):
+        diff, fun = super(Hessdiag, self)._get_functions(args, kwds)
+
+        def scalar_fun(x):
+            f_x = fun(x)
+            if np.shape(f_x) == (1,):  # a length-1 array is the value of a scalar function
+                f_x = f_x[0]
+            return f_x
+
+        return diff, scalar_fun
+
     def __call__(self, x, *args, **kwds):
         return super(Hessdiag, self).__call__(np.atleast_1d(x), *args, **kwds)
 
